@@ -46,9 +46,9 @@ ASSUMPTIONS = [
     "for trust-constr / COBYQA with linear=True the start point is the constructed feasible point (scipy requires a feasible "
     "x0 for keep_feasible linear constraints)",
 ]
-BOUND = {'quick': '16 units x 26 problems, each solved under two scalings',
-         'thorough': '32 units x 1200 problems'}
-MIN_CLASS_FRACTION = {'success': 0.35, 'mixed_pattern': 0.15, 'active': 0.25}
+BOUND = {'quick': '4 units x 70 problems, each solved under two scalings',
+         'thorough': '32 units x 1200 problems, each solved under two scalings'}
+MIN_CLASS_FRACTION = {'success': 0.15, 'mixed_pattern': 0.2, 'active': 0.4, 'success_outside_known_predicates': 0.1}
 UNIT_TIMEOUT = {'quick': 3000, 'thorough': 6 * 3600}
 
 INF = 1e30
@@ -745,14 +745,14 @@ def judge_run(case, P, run, xstar, res, label):
             res.fail(_first_tag(cause) + '|optimum:of-the-problem-actually-imposed',
                      f"[{label}] {opt}: design {xj.tolist()} optimum {xstar.tolist()} optimum without the lost/shifted "
                      f"bounds {ximpl.tolist()}")
-        elif general:
-            res.fail(general + '|optimum:design-differs-from-qp-optimum',
-                     f"[{label}] {opt}: design {xj.tolist()} optimum {xstar.tolist()} err {err:.3e} tol {tc:.1e} "
-                     f"status {getattr(sres, 'status', None)} msg {str(getattr(sres, 'message', ''))[:80]}")
         elif _control_inaccurate(case, P, run, xstar, tc):
             # the optimizer itself stops away from the optimum on this problem (no optimality claim behind 'success')
             res.classes.append('optimizer_inaccurate_in_control_too')
             return None
+        elif general:
+            res.fail(general + '|optimum:design-differs-from-qp-optimum',
+                     f"[{label}] {opt}: design {xj.tolist()} optimum {xstar.tolist()} err {err:.3e} tol {tc:.1e} "
+                     f"status {getattr(sres, 'status', None)} msg {str(getattr(sres, 'message', ''))[:80]}")
         else:
             res.fail('optimum:design-differs-from-qp-optimum',
                      f"[{label}] {opt}: design {xj.tolist()} optimum {xstar.tolist()} err {err:.3e} tol {tc:.1e} "
@@ -962,14 +962,15 @@ def strategy(tier, opts):
         c['sc'] = scs
         return c
 
-    w = {'SLSQP': 5, 'COBYLA': 2, 'trust-constr': 3, 'COBYQA': 1}
+    w = {'SLSQP': 6, 'COBYLA': 2, 'trust-constr': 2, 'COBYQA': 1}
     opts_weighted = [o for o in opts for _ in range(w[o])]
     return case()
 
 
 def units(tier, seed):
-    nunits = 16 if tier == 'quick' else 32
-    per = 26 if tier == 'quick' else 1200
+    # few, long units: importing OpenMDAO + scipy + Hypothesis dominates the cost of a short unit
+    nunits = 4 if tier == 'quick' else 32
+    per = 70 if tier == 'quick' else 1200
     return [{'kind': 'random', 'n': per, 'seed': core.shard_seed(seed, ID, i)} for i in range(nunits)]
 
 
